@@ -873,3 +873,28 @@ func (c *Cache[K, V]) VerifHoldDrain(i int, hold bool) {
 		c.shards[i].drainMu.Unlock()
 	}
 }
+
+// VerifSchedRelease switches the scheduler off and lets every parked thread run on freely
+// (used to shut a scheduled scenario down without stepping it to completion).
+func VerifSchedRelease() {
+	verifSched.on.Store(false)
+	verifSched.mu.Lock()
+	ths := make([]*verifThread, 0, len(verifSched.byID))
+	for _, th := range verifSched.byID {
+		ths = append(ths, th)
+	}
+	verifSched.mu.Unlock()
+	for _, th := range ths {
+		go func(th *verifThread) {
+			for {
+				select {
+				case th.resume <- struct{}{}:
+				case <-th.done:
+					return
+				case <-time.After(time.Second):
+					return
+				}
+			}
+		}(th)
+	}
+}
